@@ -24,6 +24,8 @@ def main():
             i += 1
     if tier not in ("quick", "thorough"):
         tier = "quick"
+    # wall-time budget of one task (one program x arguments explored over all paths); exceeding it = out_of_bound
+    os.environ.setdefault("VERIF_TASK_BUDGET_S", "12" if tier == "quick" else "150")
     if tier == "thorough":
         # second solver: every 20th obligation is re-decided by cvc5 (read by symx.core at import)
         os.environ.setdefault("VERIF_CVC5_EVERY", "20")
